@@ -231,6 +231,7 @@ class Engine(object):
         self.class_attr_hooks = {}
         self.exception_hooks = {}
         self.global_hooks = {}
+        self.inline_all_repo = False
         from . import specfuncs
         specfuncs.install(self)
         import os
@@ -263,8 +264,67 @@ class Engine(object):
     def current_contract_for(self, fi):
         return self.contracts.get(fi.qualname)
 
+    def defining_qn(self, cls, name):
+        for k in cls.__mro__:
+            if name in k.__dict__:
+                return '%s.%s.%s' % (k.__module__, k.__qualname__, name)
+        raise Unsupported('%s has no %s' % (cls, name))
+
+    def is_repo_instance(self, py):
+        m = getattr(type(py), '__module__', '') or ''
+        return m.startswith('pydiffx') and not isinstance(py, type)
+
+    def all_slots(self, cls):
+        out = set()
+        for k in cls.__mro__:
+            sl = k.__dict__.get('__slots__', ())
+            if isinstance(sl, str):
+                sl = (sl,)
+            out |= set(sl)
+        return out
+
     def setattr_hook(self, cls, name):
-        return self.setattr_hooks.get((cls, name))
+        h = self.setattr_hooks.get((cls, name))
+        if h is not None:
+            return h
+        if not (getattr(cls, '__module__', '') or '').startswith('pydiffx'):
+            return None
+        for k in cls.__mro__:
+            if name in k.__dict__:
+                raw = k.__dict__[name]
+                qn = '%s.%s.%s' % (k.__module__, k.__qualname__, name)
+                if isinstance(raw, property):
+                    if raw.fset is None:
+                        return lambda it, obj, v: it.raise_(AttributeError)
+                    return lambda it, obj, v, qn=qn: self.call_inline(
+                        it, qn, [obj, v], {}, which='set')
+                if self.is_repo_instance(raw) and hasattr(type(raw),
+                                                          '__set__'):
+                    dq = self.defining_qn(type(raw), '__set__')
+                    return lambda it, obj, v, raw=raw, dq=dq: \
+                        self.call_inline(it, dq, [VConc(raw), obj, v], {})
+                break
+        slots = self.all_slots(cls)
+        has_dict = any('__slots__' not in k.__dict__
+                       for k in cls.__mro__ if k is not object)
+        if name in slots or has_dict:
+            return None
+        return lambda it, obj, v: it.raise_(AttributeError)
+
+    def instantiate(self, it, cls, args, kwargs):
+        """Calling a repository class: allocate the object and run the
+        real __init__ (inlined)."""
+        obj = it.ctx.alloc(ObjCell(cls))
+        for k in cls.__mro__:
+            if '__init__' in k.__dict__ and k is not object:
+                qn = '%s.%s.__init__' % (k.__module__, k.__qualname__)
+                c = self.contracts.get(qn)
+                if c is not None and not c.inline:
+                    self.apply_contract(it, c, [obj] + list(args), kwargs)
+                else:
+                    self.call_inline(it, qn, [obj] + list(args), kwargs)
+                break
+        return obj
 
     # -- name resolution ---------------------------------------------------
     def lookup_global(self, it, fr, name):
@@ -294,6 +354,9 @@ class Engine(object):
                 isinstance(x, (bool, int, str, bytes, type(None)))
                 for x in py):
             return from_py(py)
+        if isinstance(py, types.FunctionType) and not (
+                py.__module__ or '').startswith('pydiffx'):
+            return VConc(py)      # library function: modelled or rejected
         if isinstance(py, types.FunctionType):
             qn = self.qualname_of(py)
             if qn in self.contracts and not self.contracts[qn].inline:
@@ -306,6 +369,10 @@ class Engine(object):
                     it, qn, a, k), qn)
             if qn in self.global_hooks:
                 return VFunc(self.global_hooks[qn], qn)
+            if self.inline_all_repo and (py.__module__ or '').startswith(
+                    'pydiffx'):
+                return VFunc(lambda it, a, k: self.call_inline(
+                    it, qn, a, k), qn)
             raise Unsupported('call target %s has no contract' % qn)
         return VConc(py)
 
@@ -328,18 +395,26 @@ class Engine(object):
                               'contract' % (name, cls.__name__))
         qn = '%s.%s.%s' % (k.__module__, k.__qualname__, name)
         if isinstance(raw, property):
-            if qn in self.inline:
-                return self.call_inline(it, qn, [objref], {})
+            if qn in self.inline or self.inline_all_repo:
+                return self.call_inline(it, qn, [objref], {}, which='get')
             raise Unsupported('property %s not inlined' % qn)
+        if self.is_repo_instance(raw) and hasattr(type(raw), '__get__'):
+            # descriptor object of a repository class
+            dq = self.defining_qn(type(raw), '__get__')
+            return self.call_inline(it, dq, [VConc(raw), objref,
+                                             VConc(cls)], {})
         if isinstance(raw, types.FunctionType):
             if qn in self.contracts and not self.contracts[qn].inline:
                 c = self.contracts[qn]
                 return VFunc(lambda it, a, kw: self.apply_contract(
                     it, c, [objref] + a, kw), qn)
-            if qn in self.inline or qn in self.contracts:
+            if qn in self.inline or qn in self.contracts or \
+                    self.inline_all_repo:
                 return VFunc(lambda it, a, kw: self.call_inline(
                     it, qn, [objref] + a, kw), qn)
             raise Unsupported('method %s has no contract' % qn)
+        if isinstance(raw, classmethod):
+            raise Unsupported('classmethod %s' % qn)
         return self.wrap_global(it, raw)
 
     def make_exception(self, it, cls, args, kwargs):
@@ -441,9 +516,16 @@ class Engine(object):
         fr.loop_ids = ids
 
     # -- inlining --------------------------------------------------------
-    def call_inline(self, it, qn, args, kwargs):
+    def call_inline(self, it, qn, args, kwargs, which='get'):
         fis = extract.find_all_defs(qn)
         fi = fis[0]
+        if len(fis) > 1:
+            # property getter / setter share a name: pick by decorator
+            for f in fis:
+                decs = [ast.unparse(d) for d in f.node.decorator_list]
+                is_setter = any(d.endswith('.setter') for d in decs)
+                if is_setter == (which == 'set'):
+                    fi = f
         ctx = it.ctx
         bound = self.bind_args(it, fi, args, kwargs)
         fr = Frame(fi, fi.module.__dict__)
@@ -734,7 +816,8 @@ def discharge(obligations, timeout_s=20, jobs=12, solvers=('z3', 'cvc5')):
             if full:
                 budget = max(5.0, min(timeout_s, total_budget + 15 - t_used))
             budget = budget if full else min(
-                timeout_s, 3 if name.startswith(('rand', 'euf')) else 6)
+                timeout_s, 3 if name.startswith(('rand', 'euf')) else
+                (15 if name in ('hint', 'manual') else 6))
             r = smt.solve_text(text, timeout_s=budget, solvers=solvers,
                                want_model=full)
             t_used += r.time_s
